@@ -22,6 +22,9 @@ class St:
 class Ent:
     def __init__(self, name):
         self.name = name
+        # a custom listdir (PollingObserverVFS) may hand out entries whose .path lies in a backing store: the snapshot's paths
+        # are built from the directory being listed and the entry's NAME
+        self.path = "/backing-store/" + name
 
 
 class VFS:
